@@ -52,6 +52,9 @@ class LayoutFold:
         self.pad = None
         self.pad_node = None
         self.track = {}
+        self.index_loops = set()      # for-range loops whose body emits data addressed by the loop index
+        self.pending_for = {}
+        self.cur_iter = {}
 
     def flush_pad(self, node=None):
         """consecutive 0x40 bytes (possibly from several writes) are judged together"""
@@ -109,6 +112,12 @@ class LayoutFold:
                     if isinstance(g, SeqV) and not g.is_lit() and any(isinstance(s_, Opq) for s_ in g.segs):
                         self.fails.append(soft('pending data variable was widened to an opaque value', e.node))
                 self.track[id(e.node)] = None
+                if id(e.node) in self.index_loops:
+                    self.pending_for[id(e.node)] = (self.cursor, self.fill)
+                    cf = st.canon(self.fill)
+                    if not cf.is_const():
+                        self.fails.append(soft(f'fill at loop head is not a constant ({cf})', e.node))
+                    self.head_fill[id(e.node)] = cf
                 return
             k, glin = var
             self.track[id(e.node)] = k
@@ -127,13 +136,42 @@ class LayoutFold:
             if not cf.is_const():
                 self.fails.append(soft(f'fill at loop head is not a constant ({cf})', e.node))
             self.head_fill[id(e.node)] = cf
+        elif e.kind == 'for-iter':
+            self.cur_iter[id(e.node)] = e.data.get('iterable')
+        elif e.kind in ('loop-iter', 'loop-exit') and id(e.node) in self.pending_for:
+            # index addressed emission: before iteration number k the loop has emitted k * step bytes
+            c0, f0 = self.pending_for[id(e.node)]
+            itv = self.cur_iter.get(id(e.node))
+            if not (isinstance(itv, RangeV) and isinstance(itv.step, int)):
+                self.fails.append(soft('data is emitted by a loop that is not a range() loop', e.node))
+                return
+            if e.kind == 'loop-iter' and e.data.get('n') == 'generic' and isinstance(e.data.get('elem'), IntV):
+                off = e.data['elem'].lin - Lin.of(itv.lo)
+                self.cursor = c0 + off
+                self.track[id(e.node)] = ('index', c0, off, itv.step)
+            elif e.kind == 'loop-exit' and e.data.get('how') == 'exhausted' and getattr(itv, '_count', None) is not None:
+                self.cursor = c0 + Lin.of(itv._count).scale(itv.step)
+            elif e.kind == 'loop-exit':
+                self.fails.append(soft('loop left early', e.node))
         elif e.kind == 'loop-back':
             self.flush_pad()
             k = self.track.get(id(e.node))
             if k is None:
                 return
+            if isinstance(k, tuple) and k and k[0] == 'index':
+                _, c0, off, step = k
+                self.fails += need_eq0(st, self.cursor - (c0 + off + Lin.const(step)),
+                                       f'an iteration addressed by the loop index emits {st.canon(self.cursor - c0 - off)} data '
+                                       f'bytes, the index advances by {step} (bytes dropped or duplicated)', e.node)
+                hf = self.head_fill.get(id(e.node))
+                if hf is not None:
+                    self.fails += need_eq0(st, self.fill - hf, f'block fill is not restored by a loop iteration '
+                                                               f'({st.canon(self.fill)} vs {hf} at loop head)', e.node)
+                return
             post = e.data['post'].get(k)
             plin = self._lin_of(post)
+            if plin is not None and getattr(self, 'offset', None) and k in self.offset and isinstance(post, IntV):
+                plin = plin + self.offset[k]
             if plin is not None:
                 self.fails += need_eq0(st, plin - self.cursor,
                                        'data pending after a loop iteration does not start where emission stopped '
@@ -178,6 +216,22 @@ class LayoutFold:
                 if isinstance(g, SeqV):
                     return k, gl
                 best = best or (k, gl)
+        if best is None:
+            # an integer cursor relative to a fixed base (e.g. a position inside a suffix of the data): cursor == var + offset,
+            # offset fixed at loop entry; the relation is re-verified at the back edge
+            for k, g in gen.items():
+                if k[0] != 'local' or not isinstance(g, IntV) or not isinstance(pre.get(k), IntV):
+                    continue
+                off = st.canon(self.cursor - pre[k].lin)
+                if any(s_.endswith('@loop') or '@loop#' in s_ for s_ in off.syms()):
+                    continue
+                cand = (k, g.lin + off)
+                # prefer the variable the loop condition / slices are about: the one advanced by the body is confirmed later
+                if best is None:
+                    best = cand
+                    self.offset = {k: off}
+                else:
+                    return None      # ambiguous: leave it to the other rules
         return best
 
     def _suffix_var(self, gen):
@@ -185,6 +239,27 @@ class LayoutFold:
             if isinstance(g, SeqV) and len(g.segs) == 1 and isinstance(g.segs[0], Sl) and g.segs[0].src is self.src:
                 return k, g
         return None
+
+
+def discover_index_loops(paths, src_of, out_of):
+    """for-loops whose generic iteration hands a slice of the data to the wrapped file (emission addressed by the index)"""
+    found = []
+    for p in paths:
+        if p.outcome != 'loopback':
+            continue
+        src, out = src_of(p), out_of(p)
+        cur = None
+        for e in p.events:
+            if e.kind == 'loop-iter' and e.data.get('n') == 'generic':
+                cur = e.node
+            elif e.kind == 'loop-back':
+                cur = None
+            elif e.kind == 'write' and cur is not None and e.data['file'] is out and isinstance(e.data['data'], SeqV) and \
+                    any(isinstance(g, Sl) and g.src is src for g in e.data['data'].segs):
+                import ast as _ast
+                if isinstance(cur, _ast.For) and cur not in found:
+                    found.append(cur)
+    return found
 
 
 def check(prog, res, tier):
@@ -234,10 +309,15 @@ def check(prog, res, tier):
             it.store.assume_ge0(Lin.const(PAYLOAD) - g.lin)
     runs_w = Runs(prog, entry_w, res=res, hooks={'loop_head': loop_head})
 
+    index_loops = {}
+
     def fold(p):
         u = p.interp.user
         src = u['b'].segs[0].src
         lf = LayoutFold(p, src, Lin.const(PAYLOAD) - u['r'].lin, u['file'])
+        if 'v' not in index_loops:
+            index_loops['v'] = discover_index_loops(runs_w.inv, lambda q: q.interp.user['b'].segs[0].src, lambda q: q.interp.user['file'])
+        lf.index_loops = {id(n) for n in index_loops['v'] if any(e.node is n for e in p.events)}
         for e in p.events:
             lf.event(e)
         lf.flush_pad()
